@@ -92,38 +92,74 @@ func stackRun(args []string) int {
 		}
 		c := 0
 		next := func() int { c++; return c }
-		// phase 1: consumers park on the empty stack
-		ncons := 1 + rng.Intn(2)
-		for i := 0; i < ncons; i++ {
-			call(next(), "pop", 0, 0)
-		}
-		sched.QuiesceOpt(200*time.Millisecond, 2, false)
-		// phase 2: producers and waiters start together
-		npush := ncons + rng.Intn(2) - rng.Intn(2) // sometimes one element too few / too many
-		if npush < 1 {
-			npush = 1
-		}
-		for i := 0; i < npush; i++ {
-			call(next(), "push", 101+i, time.Duration(rng.Intn(15))*time.Microsecond)
-		}
-		for i, n := 0, 1+rng.Intn(3); i < n; i++ {
-			d := time.Duration(rng.Intn(40)) * time.Microsecond
-			switch rng.Intn(4) {
-			case 0, 1:
-				call(next(), "empty", 0, d)
-			case 2:
-				call(next(), "below", 1+rng.Intn(2), d)
-			default:
-				call(next(), "above", rng.Intn(2), d)
-			}
-		}
-		// phase 3 (sometimes): a late consumer / producer once things have settled
-		if rng.Intn(3) == 0 {
+		if tr%5 == 4 {
+			// forced: a consumer is held INSIDE its wait condition (evaluated on the empty stack, under the stack's lock); a
+			// producer arrives meanwhile; the condition says "wait". The consumer must come back with the element.
+			gate := sched.NewGate()
+			gate.Hold("cond")
+			cc := next()
+			mu.Lock()
+			blocked[cc] = true
+			mu.Unlock()
+			go func() {
+				lg.add(core.Ev{"op": "begin", "c": cc, "kind": "pop", "a": 0})
+				first := true
+				x := 0
+				if v, ok := st.PopOrWait(func() bool {
+					if first {
+						first = false
+						gate.Wait("cond")
+					}
+					return !stop.Load()
+				}); ok {
+					x = v
+				}
+				mu.Lock()
+				delete(blocked, cc)
+				lg.add(core.Ev{"op": "ret", "c": cc, "x": x})
+				mu.Unlock()
+			}()
 			sched.QuiesceOpt(200*time.Millisecond, 2, false)
+			call(next(), "push", 101, 0)
+			sched.QuiesceOpt(200*time.Millisecond, 2, false)
+			gate.ReleaseAll()
 			if rng.Intn(2) == 0 {
+				call(next(), "empty", 0, 0)
+			}
+		} else {
+			// phase 1: consumers park on the empty stack
+			ncons := 1 + rng.Intn(2)
+			for i := 0; i < ncons; i++ {
 				call(next(), "pop", 0, 0)
-			} else {
-				call(next(), "push", 101+npush, 0)
+			}
+			sched.QuiesceOpt(200*time.Millisecond, 2, false)
+			// phase 2: producers and waiters start together
+			npush := ncons + rng.Intn(2) - rng.Intn(2) // sometimes one element too few / too many
+			if npush < 1 {
+				npush = 1
+			}
+			for i := 0; i < npush; i++ {
+				call(next(), "push", 101+i, time.Duration(rng.Intn(15))*time.Microsecond)
+			}
+			for i, n := 0, 1+rng.Intn(3); i < n; i++ {
+				d := time.Duration(rng.Intn(40)) * time.Microsecond
+				switch rng.Intn(4) {
+				case 0, 1:
+					call(next(), "empty", 0, d)
+				case 2:
+					call(next(), "below", 1+rng.Intn(2), d)
+				default:
+					call(next(), "above", rng.Intn(2), d)
+				}
+			}
+			// phase 3 (sometimes): a late consumer / producer once things have settled
+			if rng.Intn(3) == 0 {
+				sched.QuiesceOpt(200*time.Millisecond, 2, false)
+				if rng.Intn(2) == 0 {
+					call(next(), "pop", 0, 0)
+				} else {
+					call(next(), "push", 101+npush, 0)
+				}
 			}
 		}
 		hung := !sched.QuiesceOpt(3*time.Second, 3, false)
